@@ -956,6 +956,21 @@ fn delta_cases(cx: &mut Ctx, rng: &mut Rng, ops: &DeltaOps, n_save: usize, n_dir
     sleb(&mut p, 0);
     sleb(&mut p, i64::MAX);
     sleb(&mut p, 1);
+    inputs.push((p.clone(), "probe"));
+    // 2^64 items in one slab: the aggregate's item counter
+    sleb(&mut p, 2);
+    sleb(&mut p, 0);
+    inputs.push((p.clone(), "probe"));
+    p.push(0x80);
+    inputs.push((p, "probe"));
+    let mut p = vec![0x00];
+    uleb(&mut p, u64::MAX);
+    inputs.push((p.clone(), "probe"));
+    sleb(&mut p, 2);
+    sleb(&mut p, 5);
+    inputs.push((p, "probe"));
+    let mut p = vec![0x00];
+    uleb(&mut p, u64::MAX - 1);
     inputs.push((p, "probe"));
     for _ in 0..n_load {
         match rng.below(10) {
